@@ -100,6 +100,22 @@ Definition run_history (full : bool) (a : list Z) : list Z :=
   | _ => [-98]
   end.
 
+(* a long regular history (constant measurement every dt), given compactly: the event list is
+   rebuilt here from the per-event oracles (mono, e) *)
+Fixpoint regular_events (orc : list Z) (t dt d o rd rp : Z) : list Z :=
+  match orc with
+  | mono :: e :: rest =>
+      1 :: d :: o :: wrap 64 (t + dt) :: rd :: rp :: mono :: e
+        :: regular_events rest (wrap 64 (t + dt)) dt d o rd rp
+  | _ => []
+  end.
+Definition run_regular (a : list Z) : list Z :=
+  match skipn 15 a with
+  | per :: stride :: t0 :: dt :: d :: o :: rd :: rp :: orc =>
+      run_history false (firstn 15 a ++ [0; per; stride] ++ regular_events orc t0 dt d o rd rp)
+  | _ => [-96]
+  end.
+
 Definition run (c : Z * list Z) : list Z :=
   let '(op, a) := c in
   match op with
@@ -120,6 +136,7 @@ Definition run (c : Z * list Z) : list Z :=
   | 13 => [tb (ffmod (fb (nthz a 0)) (fb (nthz a 1)))]
   | 20 => run_history false a
   | 21 => run_history true a
+  | 22 => run_regular a
   | _ => [-97]
   end.
 
